@@ -22,7 +22,7 @@ PROPERTY = 'C15'
 LEVEL = 'exploration'
 SEEDS_EXH = list(range(24))
 PLAN = {'quick': [('exh', 8 * len(SEEDS_EXH)), ('hist', 6000), ('sim', 1000)],
-        'thorough': [('exh', 8 * len(SEEDS_EXH)), ('hist', 300000), ('sim', 40000)]}
+        'thorough': [('exh', 8 * len(SEEDS_EXH)), ('hist', 600000), ('sim', 100000)]}
 TIMEOUT = {'quick': 900, 'thorough': 6 * 3600}
 RECHECK = 100
 FIXED_KINDS = ('exh',)   # the exhaustive part is never scaled down
